@@ -277,14 +277,14 @@ func checkC19(r *Report, known []Finding) {
 				extra := [][]byte{[]byte("/index.php\nnext line"), []byte("/index.php\n"), []byte("ab__cd\nx"), []byte("ab\ncd"), []byte("abxcd")}
 				for _, h := range append(append([][]byte(nil), hays...), extra...) {
 					wantM := fmt.Sprint(std.Match(h))
-					cases = append(cases, cs{p: p, searcher: "Engine[" + st.String() + "]", op: "IsMatch", h: h, got: fmt.Sprint(eng.IsMatch(h)), prop: true, want: wantM})
+					cases = append(cases, cs{p: p, searcher: "Engine[" + st.String() + "]", op: "IsMatch", h: h, got: guard(5*time.Second, func() string { return fmt.Sprint(eng.IsMatch(h)) }), prop: true, want: wantM})
 					loc := std.FindIndex(h)
 					want := "nil"
 					if loc != nil {
 						want = fmt.Sprintf("%d,%d", loc[0], loc[1])
 					}
-					s0, e0, ok := eng.FindIndices(h)
-					cases = append(cases, cs{p: p, searcher: "Engine[" + st.String() + "]", op: "FindIndices", h: h, got: spanStr(s0, e0, ok), prop: true, want: want})
+					gotF := guard(5*time.Second, func() string { s0, e0, ok := eng.FindIndices(h); return spanStr(s0, e0, ok) })
+					cases = append(cases, cs{p: p, searcher: "Engine[" + st.String() + "]", op: "FindIndices", h: h, got: gotF, prop: true, want: want})
 				}
 			}
 		}
